@@ -204,7 +204,7 @@ pub mod model {
         };
         let obs: [u8; MAXOBS] = crate::kani::any();
         let cut_p: u8 = crate::kani::any();
-        AVAILABLE.store(t, Ordering::SeqCst);
+        set_available(t);
         let mut c = CTL.lock().unwrap();
         c.active = true;
         c.n = n;
@@ -230,7 +230,7 @@ pub mod model {
     }
 
     pub fn begin_unscheduled(t: usize) {
-        AVAILABLE.store(t, Ordering::SeqCst);
+        set_available(t);
         // first worker drains everything: every position owned by worker 0
         let mut c = CTL.lock().unwrap();
         c.active = true;
@@ -244,6 +244,24 @@ pub mod model {
     }
 
     pub static AVAILABLE: AtomicUsize = AtomicUsize::new(2);
+
+    extern "C" {
+        fn sched_setaffinity(pid: i32, cpusetsize: usize, mask: *const u64) -> i32;
+    }
+
+    /// make std::thread::available_parallelism() report k by restricting the CPU affinity
+    pub fn set_available(k: usize) {
+        AVAILABLE.store(k, Ordering::SeqCst);
+        if k == 0 || k > 64 {
+            crate::kani::invalid("available_parallelism value cannot be realised on this machine");
+        }
+        let mask: u64 = if k == 64 { u64::MAX } else { (1u64 << k) - 1 };
+        let rc = unsafe { sched_setaffinity(0, 8, &mask as *const u64) };
+        let got = std::thread::available_parallelism().map(|x| x.get()).unwrap_or(0);
+        if rc != 0 || got != k {
+            crate::kani::invalid("available_parallelism value cannot be realised on this machine");
+        }
+    }
 
     pub fn set_base(addr: usize) {
         CTL.lock().unwrap().base = addr;
